@@ -176,12 +176,14 @@ def edge_programs(tier):
     # f. a runtime error at every statement position of programs that hold live objects everywhere
     holder = """class Own { public int id; public qubit q; public Own other; public constructor(int i) -> Own { this.id = i; this.other = null; } public destructor() -> void { echo("~Own" + this.id); } public function poke(Own o) -> int { return this.id + o.id; } }
 class Plain { public int id; public Plain peer; public constructor(int i) -> Plain { this.id = i; this.peer = null; return this; } public destructor() -> void { echo("~Plain" + this.id); } }
+class Dd { public int id; public constructor(int i) -> Dd { this.id = i; } public destructor() -> void = default; }
+class De extends Dd { public constructor(int i) -> De { super(i); } public destructor() -> void { echo("~De" + this.id); } }
 static class Reg { public static Own kept = null; public static Plain p = null; }
-function boom(int z) -> int { return 1 / z; }
+function boom(int z) -> int { return 1 % z; }
 function deep(Own a, Plain b, int z) -> int { Own local = new Own(90); local.other = a; return boom(z) + a.id + b.id; }
 """
     stmts = ["Own a = new Own(1);", "Plain b = new Plain(2);", "a.other = new Own(3);", "b.peer = b;", "Reg.kept = a;", "Reg.p = new Plain(4);", "h(a.q);", "{ Own scoped = new Own(5); echo(scoped.poke(a)); }",
-             "echo(deep(a, b, 1));", "measure a.q;", "a = null;", "echo(\"end\");"]
+             "echo(deep(a, b, 1));", "{ Dd dflt = new Dd(6); Dd sub = new De(7); echo(dflt.id + sub.id); }", "measure a.q;", "a = null;", "echo(\"end\");"]
     errs = ["echo(boom(0));", "echo(deep(Reg.kept, new Plain(7), 0));", "Own n = null; echo(n.id);", "int[1] arr; int k = 3; echo(arr[k]);", "x(Reg.kept.q); measure Reg.kept.q; x(Reg.kept.q);"]
     for pos in range(len(stmts) + 1):
         for ei, e in enumerate(errs):
@@ -192,9 +194,9 @@ function deep(Own a, Plain b, int z) -> int { Own local = new Own(90); local.oth
     # error inside a destructor / constructor / field initialiser / static initialiser
     progs.append(("error-in-dtor", main_prog(["E a = new E();", "a = null;", "echo(\"after\");"], "class E { public int z = 0; public constructor() -> E = default; public destructor() -> void { echo(1 / this.z); } }\n")))
     progs.append(("error-in-dtor-scope", main_prog(["{ E a = new E(); }", "echo(\"after\");"], "class E { public int z = 0; public constructor() -> E = default; public destructor() -> void { echo(1 / this.z); } }\n")))
-    progs.append(("error-in-ctor", main_prog(["E a = new E(0);", "echo(\"after\");"], "class E { public int v; public constructor(int z) -> E { this.v = 1 / z; } public destructor() -> void { echo(\"~E\"); } }\n")))
-    progs.append(("error-in-field-init", main_prog(["E a = new E();", "echo(\"after\");"], "function zero() -> int { return 0; }\nclass E { public int v = 1 / zero(); public constructor() -> E = default; }\n")))
-    progs.append(("error-in-static-init", main_prog(["echo(S.v);"], "function zero() -> int { return 0; }\nstatic class S { public static int v = 1 / zero(); }\n")))
+    progs.append(("error-in-ctor", main_prog(["E a = new E(0);", "echo(\"after\");"], "class E { public int v; public constructor(int z) -> E { this.v = 1 % z; } public destructor() -> void { echo(\"~E\"); } }\n")))
+    progs.append(("error-in-field-init", main_prog(["E a = new E();", "echo(\"after\");"], "function zero() -> int { return 0; }\nclass E { public int v = 1 % zero(); public constructor() -> E = default; }\n")))
+    progs.append(("error-in-static-init", main_prog(["echo(S.v);"], "function zero() -> int { return 0; }\nstatic class S { public static int v = 1 % zero(); }\n")))
     # allocation pressure while objects are half built / pending (the collector's own trigger: > 16 allocations)
     node = "class Node { public int v; public Node next; public constructor(int v, Node n) -> Node { this.v = v; this.next = n; return this; } }\n"
     progs.append(("pressure:recursive-build", node + "function build(int n) -> Node { if (n == 0) { return null; } return new Node(n, build(n - 1)); }\nfunction sum(Node h) -> int { int s = 0; Node c = h; for (int i = 0; i < 100; i = i + 1) { if (c == null) { return s; } s = s + c.v; c = c.next; } return s; }\n" + main_prog(["echo(sum(build(40)));"])))
@@ -236,6 +238,7 @@ def main(tier):
     outcomes = {}
     n = 0
     ub = {}
+    famtot, famrej = {}, {}
     for name, src, prob, cls, notes in vdrv.pmap(_one, progs, chunksize=8):
         n += 1
         for x in notes:
@@ -248,11 +251,24 @@ def main(tier):
             ck.violation("%s:%s" % (fam, m.group(1) if m else first[:60]), "%s\nprogram (%s):\n%s" % (prob, name, src), {"tool": "vdrv", "job": {"kind": "cli", "opts": {"hook_draws": 1}, "argv": ["bloch", "main.bloch"], "files": {"main.bloch": src}}})
         else:
             outcomes[cls] = outcomes.get(cls, 0) + 1
+            fam = name.split(":")[0]
+            famtot[fam] = famtot.get(fam, 0) + 1
+            if cls in ("Semantic error", "Parse error", "Lexical error"):
+                famrej[fam] = famrej.get(fam, 0) + 1
         if n % 499 == 1:
             ck.sample({"case": name, "program": src[-400:]})
+    # vacuity guard: the property is about programs the analyser ACCEPTS. A family (other than the ones that probe literal / cast / index
+    # forms the analyser may legitimately reject) whose programs are rejected at compile time exercises nothing - that is a broken
+    # generator, or an analyser that rejects valid programs (C16's subject), and must not pass silently
+    for fam, rej in sorted(famrej.items()):
+        if fam in ("lit", "cast", "index-write", "index-read", "shots"):
+            continue
+        ck.cap("family '%s': %d of %d programs were rejected at compile time and exercised nothing at run time" % (fam, rej, famtot[fam]))
+        if rej * 2 > famtot[fam]:
+            ck.harness_error("family '%s' is vacuous: %d of %d programs are rejected by the front end (generator rot, or the analyser rejects valid programs - see C16)" % (fam, rej, famtot[fam]))
     for k, v in sorted(ub.items(), key=lambda kv: -kv[1])[:8]:
         ck.note("UBSan (recoverable, not a verdict): %s x%d" % (k, v))
     ck.assumptions += ["signed overflow and float-to-int overflow reported by UBSan are notes: the property speaks of crashes, memory errors and raw exception text, not of overflow values",
                        "observed through an -O1 clang ASan/UBSan build of the working tree; recursion <= 150 and <= 8 qubits as in the property"]
     ck.finish({"evaluations": n, "distinct_nontrivial": len(set(p[0].split(":")[0] + ":" + p[0].split(":")[1] if ":" in p[0] else p[0] for p in progs)),
-               "rule": "the edge alphabet listed in the module docstring, one CLI run each; distinct = distinct (family, sub-family) cells", "outcome_classes": outcomes})
+               "rule": "the edge alphabet listed in the module docstring, one CLI run each; distinct = distinct (family, sub-family) cells", "outcome_classes": outcomes, "rejected_at_compile_time_per_family": famrej})
